@@ -55,8 +55,12 @@ def gen_case(rng):
     # a bend-sensitivity command of the user (an RPN message of its own) does not change how a slur is rendered
     if rng.random() < 0.25: both(rng.choice(["BR(%d)", "BendRange(%d)", "PitchBendSensitivity(%d)"]) % rng.choice([1, 2, 5, 11, 12, 24]))
     ngroups = rng.choice([1, 1, 2, 3])
+    curch = [None]
     for gi in range(ngroups):
         if gi > 0 and rng.random() < 0.6: slur()
+        if gi > 0 and rng.random() < 0.3:
+            # the track moves to another channel between two groups
+            nc = rng.choice([c_ for c_ in range(1, 17) if c_ != curch[0]]); curch[0] = nc; both("CH(%d)" % nc)
         g = gen_group(rng); groups.append(g); mark = 111 + gi; gm[str(mark)] = [mode, val]
         ctx = rng.random()
         t, p = render_group(g, True, mark), render_group(g, False, mark)
@@ -136,10 +140,12 @@ def expected_from_plain(c, eb):
         else:
             if cur: groups.append(cur); cur = []
     if cur: groups.append(cur)
-    outs = []; brv = -1
+    outs = []; brv = -1; prevch = None
     for g in groups:
         evs = ",".join(eb[i] for i in g)
         chv = eb[g[0]].split(":")[2]
+        if prevch is not None and chv != prevch: brv = 0      # the bend range is a setting of the channel: sent again on another channel
+        prevch = chv
         gmode, gval = c["gm"][eb[g[0]].split(":")[5]]
         r = run_driver(["tieflush %d %s %d %d %d %s" % (gmode, chv, c["tb"], brv, gval, evs)])[0]
         if not r.startswith("ok ev="): return None
